@@ -40,6 +40,17 @@ func main() {
 			fmt.Fprintln(os.Stderr, err)
 			os.Exit(2)
 		}
+	case "candidates":
+		p, err := load.Load(load.Config{Repo: *repo, VerifDir: *verif})
+		if err != nil {
+			fmt.Fprintln(os.Stderr, "load:", err)
+			os.Exit(2)
+		}
+		pk := "rockredis"
+		if len(args) > 1 {
+			pk = args[1]
+		}
+		listDecoderCandidates(p, pk)
 	case "vocab":
 		// regenerate vocab.json: the signatures of the locals of every function the rule tables look into
 		if err := writeVocab(*repo, *verif); err != nil {
